@@ -5,6 +5,7 @@ import (
 	"fmt"
 	"io"
 	"math/big"
+	"sync"
 
 	"gitlab.com/yawning/secp256k1-voi/secec"
 
@@ -12,10 +13,35 @@ import (
 	"verifharness/oracle"
 )
 
+var (
+	glvOnce     sync.Once
+	glvByLambda map[string]*glvConsts
+)
+
 // keyValue draws a private scalar in [1,n) with its class.
 func keyValue(r *gen.Rng) (*big.Int, string) {
 	n := bigN
-	switch r.Intn(10) {
+	switch r.Intn(12) {
+	case 10, 11:
+		// scalars steered into the GLV decomposition's rare windows (rounding
+		// bit, limb carry, extreme halves): every secret-scalar multiplication
+		// (public-key derivation, ECDH, signing) goes through that split.
+		lam := oracle.Lambda
+		if r.Bool() {
+			lam = oracle.MulM(lam, lam, n)
+		}
+		glvOnce.Do(func() {
+			glvByLambda = map[string]*glvConsts{}
+			l2 := oracle.MulM(oracle.Lambda, oracle.Lambda, n)
+			glvByLambda[oracle.Lambda.String()] = deriveGLV(oracle.Lambda)
+			glvByLambda[l2.String()] = deriveGLV(l2)
+		})
+		for {
+			v, cl := glvScalar(r, glvByLambda[lam.String()], lam)
+			if v.Sign() != 0 {
+				return v, "d=glv:" + cl
+			}
+		}
 	case 0:
 		return big.NewInt(1), "d=1"
 	case 1:
